@@ -512,6 +512,8 @@ class StarSet(object):
                 except:
                     continue
                 if not s.iszero() and not s in oldstateset: newstateset.add(s)
+        # the wider range may add no state at all (finite / non-percolating network): nothing else changes
+        if len(newstateset) == 0: return self
         # now to sort our set of vectors (easiest by magnitude, and then reduce down:
         self.states += sorted([s for s in newstateset], key=PairState.sortkey)
         Nnew = len(self.states)
